@@ -381,6 +381,21 @@ class GeminiClient:
         else:
             raise ValueError("URL must use gemini:// or titan:// scheme")
 
+        # A semicolon separates Titan parameters: one inside the URL, the token or
+        # the media type would be read by the server as the start of the next
+        # parameter (a path "/a;b" is stored as "/a", a token "x;size=0" turns the
+        # upload into a delete request). It has to be percent-encoded by the caller.
+        for what, value in (
+            ("URL", titan_url_base),
+            ("token", token or ""),
+            ("media type", mime_type),
+        ):
+            if ";" in value or any(ord(ch) <= 0x20 or ord(ch) == 0x7F for ch in value):
+                raise ValueError(
+                    f"';', whitespace and control characters are not allowed in the "
+                    f"{what} of an upload (';' separates Titan parameters)"
+                )
+
         # Build Titan URL with parameters
         # Format: titan://host/path;size=N;mime=TYPE;token=TOKEN
         titan_url = f"{titan_url_base};size={len(content_bytes)};mime={mime_type}"
